@@ -150,8 +150,12 @@ func c06Notify(c *core.Ctx) {
 				return false
 			}
 			l, r := sx.Of(bo.X).String(), sx.Of(bo.Y).String()
-			return (bo.Op == token.LEQ && l == hdrS+".Num" && strings.Contains(r, "lastFinalisedBlock")) ||
-				(bo.Op == token.GEQ && r == hdrS+".Num" && strings.Contains(l, "lastFinalisedBlock"))
+			// the finalized block number itself: no arithmetic on it (`<= finalized+1` would drop a block that can still be reorged)
+			plain := func(t string) bool {
+				return strings.Contains(t, "lastFinalisedBlock") && !strings.Contains(t, " + ") && !strings.Contains(t, " - ")
+			}
+			return (bo.Op == token.LEQ && l == hdrS+".Num" && plain(r)) ||
+				(bo.Op == token.GEQ && r == hdrS+".Num" && plain(l))
 		}, true)
 		w := &core.Walk{
 			EdgeOK: func(b *ssa.BasicBlock, s int) bool {
